@@ -74,8 +74,14 @@ def extras(rng):
     return out
 
 
+FIRST_MARKER = 0.0      # probability that a license text starts with a blank-line marker or a verbatim line (set by C09)
+
+
 def license_field(rng, with_text=True):
-    return (rng.choice(SHORT), text_lines(rng) if with_text and rng.random() < .8 else [])
+    tl = text_lines(rng) if with_text and rng.random() < .8 else []
+    if tl and len(tl) > 1 and rng.random() < FIRST_MARKER:
+        tl = [rng.choice([('B',), ('V', ' ' + words(rng))])] + tl[1:]
+    return (rng.choice(SHORT), tl)
 
 
 def files_para(rng):
@@ -185,7 +191,12 @@ def lic_expected(lic):
     if not lic:
         return ['', '']
     short, tl = lic
-    return [short, '\n'.join(decode_tl(tl)).lstrip() if tl else '']
+    if not tl:
+        return [short, '']
+    d = decode_tl(tl)
+    # the first line of the text is trimmed, not decoded: a marker there stays a full stop
+    d[0] = render_tl(tl[:1])[0].strip()
+    return [short, '\n'.join(d).lstrip()]
 
 
 def text_expected(tl):
